@@ -30,6 +30,11 @@ PhysOf(env, p) ==
   LET cand == {q \in DOMAIN env.E : {env.vmap[env.E[q].a], env.vmap[env.E[q].b]} = EndsOfPath(p)}
   IN  IF Cardinality(cand) = 1 THEN CHOOSE q \in cand : TRUE ELSE 0
 
+\* an interface that runs through a two-valent vertex of the generating complex consists of several of its arcs / segments
+\* (a kinked path, e.g. the two sides of a lens-shaped cell): it is neither a circle nor a line, the statement defines no
+\* tangent for it, and its coefficient pair is not judged (its column and its junctions are)
+Composite(env, p) == \E i \in 2..(Len(p) - 1) : \E b \in DOMAIN env.vmap : env.vmap[b] = p[i]
+
 \* true tangent (embedded frame) of physical interface q at mesh vertex v
 TrueTan(env, q, v)  == IF env.vmap[env.E[q].a] = v THEN env.E[q].tea ELSE env.E[q].teb
 TrueTanM(env, q, v) == IF env.vmap[env.E[q].a] = v THEN env.E[q].ta ELSE env.E[q].tb
@@ -74,7 +79,8 @@ CoefBad(m, f, env, fm) ==
                  : k \in DOMAIN fm.rows} :
      LET row == fm.rows[ki[1]]  q == PhysOf(env, f.ifaces[ki[2]])
          got == Entry(row, ColOf(fm, ki[2]))
-     IN  q = 0 \/ ~(Close(got[1], TrueTan(env, q, row.v)[1], TolTangent) /\ Close(got[2], TrueTan(env, q, row.v)[2], TolTangent))}
+     IN  IF q = 0 THEN ~Composite(env, f.ifaces[ki[2]])
+         ELSE ~(Close(got[1], TrueTan(env, q, row.v)[1], TolTangent) /\ Close(got[2], TrueTan(env, q, row.v)[2], TolTangent))}
 \* known finding: the least-squares circle fit of a STRAIGHT interface occasionally converges to a centre on
 \* (or next to) the line itself; the coefficient is then (nearly) perpendicular to the true tangent
 KF_LineFitPerpEnd(env, q, v, got) == LET t == TrueTan(env, q, v) IN
